@@ -71,7 +71,7 @@ _Q = "kani/query/evaluator.rs"
 PROPS["C20"] = {
     "title": "ORDER BY sorts and SKIP/LIMIT slice it",
     "kani": [(_Q, r"^c20_")],
-    "e2": ["c20", "c20b"],
+    "e2": ["c20", "c20b", "skip"],
     "functions_encoded": ["nervusdb_query::evaluator::order_compare", "evaluator_compare::order_compare_non_null",
                           "evaluator_compare::compare_f64_with_nan", "evaluator_compare::value_order_rank",
                           "plan_tail::evaluate_row_window_expression", "plan_tail::execute_skip", "plan_tail::execute_limit"],
@@ -85,8 +85,9 @@ PROPS["C20"] = {
                   "payload bit patterns, order_compare is reflexive, antisymmetric, transitive, Equal is an equivalence, kinds are "
                   "ranked as documented, NaN sorts above numbers, Null last, and Int vs Float follows the exact numeric order. "
                   "Plus path-wise symbolic execution (z3) of the SKIP/LIMIT window: the window size is exactly the evaluated non-negative "
-                  "integer (no clamping/wrap), anything else is an error, and execute_skip/execute_limit pass exactly that number to "
-                  "Iterator::skip/take on the input plan's iterator. Partial: comparator laws on scalar kinds and window arithmetic, "
+                  "integer (no clamping/wrap), anything else is an error, execute_limit passes exactly that number to Iterator::take, and "
+                  "execute_skip drops exactly the first n rows of a row stream (streams of <= 4 items, symbolic n; the adaptor's filter "
+                  "closure is executed symbolically with its captured counter). Partial: comparator laws on scalar kinds and window arithmetic, "
                   "not the whole ORDER BY pipeline.",
     "level_note": "Trusted: Kani/CBMC/CaDiCaL, std sort. Strings, collections and graph values are outside the claim.",
     "design_ref": "DESIGN.md section 3, C20",
@@ -297,18 +298,19 @@ PROPS["C26"] = {
 PROPS["C22"] = {
     "title": "Runtime errors are never swallowed",
     "kani": [],
-    "e2": ["c22", "iters", "orderby"],
+    "e2": ["c22", "iters", "orderby", "skip"],
     "functions_encoded": ["executor::plan_tail::execute_distinct::{closure#0}", "execute_union::{closure#0}",
                           "plan_iterators::FilterIter::next", "runtime_limits::RuntimeGuardIter::next",
-                          "plan_mid::execute_order_by", "execute_order_by::{closure#0}"],
-    "bounds": {"input": "one item of the input stream, variant (Ok row / Err) symbolic", "models": "row key construction opaque; "
+                          "plan_mid::execute_order_by", "execute_order_by::{closure#0}", "plan_tail::execute_skip + its filter closure"],
+    "bounds": {"input": "one item of the input stream, variant (Ok row / Err) symbolic; SKIP: every Ok/Err pattern of <= 4 items, window size symbolic", "models": "row key construction opaque; "
                "HashSet::insert forks into {new key, seen key}"},
     "stubs": ["Row::columns / iter / map / collect / join: opaque values (the key's content does not matter to the obligation)",
               "HashSet::insert: both outcomes explored"],
-    "assumptions": ["Iterator::filter keeps an item iff the closure returns true (std)"],
+    "assumptions": ["Iterator::filter keeps an item iff the closure returns true (std)", "Iterator::skip(n) discards the first n items (std)"],
     "outside_claim": ["errors the evaluator itself maps to Null", "operators other than those listed in coverage.samples"],
     "level_text": "Path-wise symbolic execution (z3) of the MIR of the DISTINCT and UNION filter closures: on every feasible path an Err "
-                  "input item is forwarded (closure returns true) and an Ok row is kept iff its key is new. Counterexamples are replayed "
+                  "input item is forwarded (closure returns true) and an Ok row is kept iff its key is new; SKIP never drops an error item "
+                  "wherever it falls relative to the window. Counterexamples are replayed "
                   "through the public API (plain query raises, DISTINCT/UNION must raise too).",
     "level_note": "Trusted: rustc's MIR dump (nightly), the translator in /verif/vf/e2 (unknown MIR => inconclusive), z3, std Iterator::filter.",
     "design_ref": "DESIGN.md section 3, C22",
@@ -406,18 +408,28 @@ PROPS["C19"] = {
 PROPS["C14"] = {
     "title": "No dangling relationships",
     "kani": [],
-    "e2": ["c14"],
-    "functions_encoded": ["executor::create_delete_ops::ensure_non_detach_delete_safety"],
+    "e2": ["c14", "neighbors"],
+    "functions_encoded": ["executor::create_delete_ops::ensure_non_detach_delete_safety",
+                          "storage read_path_iters::{NeighborsIter, IncomingNeighborsIter}::{next, apply_pending_tombstones, load_run, load_segment}, "
+                          "read_path_neighbors::edge_blocked_{outgoing,incoming}"],
     "bounds": {"nodes to delete": "<= 1 (quick) / 2 (thorough)", "attached relationships": "<= 1 (quick) / 2 (thorough) outgoing and as many incoming per node",
-               "explicit set membership": "symbolic per relationship", "detach flag": "symbolic"},
+               "explicit set membership": "symbolic per relationship", "detach flag": "symbolic",
+               "traversal iterators": "2 runs (newest first) + 1 compacted segment; per run <= 1 tombstoned node, <= 1 tombstoned relationship, <= 1 "
+                                      "relationship of the traversed node; all ids symbolic u32; 5 run shapes quick / all 64 thorough; rel filter None"},
     "stubs": ["snapshot.neighbors / incoming_neighbors -> symbolic relationship streams; HashSet modelled as an insertion-ordered list; "
-              "HashSet::contains -> both outcomes"],
-    "assumptions": ["the check is a function of the snapshot it is given"],
+              "HashSet::contains -> both outcomes",
+              "traversal iterators: HashSet as a finite list of symbolic elements (contains = disjunction of equalities), L0Run / CsrSegment as "
+              "(tombstoned nodes, tombstoned relationships, relationships of the traversed node); load_*_run_edges / load_*_segment_edges "
+              "append those lists"],
+    "assumptions": ["the check is a function of the snapshot it is given", "run.edges_for_src/dst and segment.neighbors return exactly the stored "
+                    "relationships of the node (C05/C30 decide the segment side)"],
     "outside_claim": ["the snapshot consulted is the pre-statement one: relationships created earlier in the same statement/transaction are invisible "
-                      "to this check (not encodable here)", "tombstone blocking in the storage neighbour iterators"],
-    "level_text": "Partial and thin: path-wise symbolic execution (z3) of the non-DETACH delete safety kernel: for every combination of "
+                      "to this check (not encodable here)", "hiding a relationship whose end node is tombstoned in the SAME run", "more than 2 runs / 1 segment"],
+    "level_text": "Partial: path-wise symbolic execution (z3) of the non-DETACH delete safety kernel: for every combination of "
                   "attached outgoing/incoming relationships and explicit-delete membership, the delete is refused iff some attached "
-                  "relationship is not deleted too; DETACH is always accepted; every attached relationship is checked.",
+                  "relationship is not deleted too; DETACH is always accepted; every attached relationship is checked. And of the two storage "
+                  "traversal iterators on a symbolic snapshot (2 runs + 1 segment): a relationship is never returned when a newer run "
+                  "tombstones one of its end nodes or the relationship itself, and every relationship that nothing hides is returned.",
     "level_note": "Trusted: rustc MIR dump, E2 translator and iterator/set models, z3.",
     "design_ref": "DESIGN.md section 3, C14",
 }
